@@ -77,10 +77,23 @@ def handle (ws : List String) : String :=
   | "midwhere" :: a :: b :: rest =>
     match a.toNat?, b.toNat?, parseTree rest with
     | some a, some b, some (t, []) =>
+      -- the intermediate observable of `reroot_at_midpoint`: where the walk stops, and for an in-edge answer the two sub-edge
+      -- lengths (towards the old tail / towards the old head) that `rerootAtMidpoint` hands to `splitEdge`
       match midpointOf a b t with
-      | .onEdge h x => s!"edge {h} {x.render}"
+      | .onEdge h x =>
+        match t.find? h with
+        | some hn => s!"edge {h} {(lenOr0 hn.len - x).render} {x.render}"
+        | none => "fail"
       | .onNode n => s!"node {n}"
       | .fail => "fail"
+    | _, _, _ => "bad-op"
+  | "suppress" :: f :: rest =>
+    match parseFlag f, parseTree rest with
+    | some f, some (t, []) => out f (sup t)
+    | _, _ => "bad-op"
+  | "collapse" :: f :: u :: rest =>
+    match parseFlag f, parseBit u, parseTree rest with
+    | some f, some u, some (t, []) => out (if u && collapses t then some false else f) (collapseBasal t)
     | _, _, _ => "bad-op"
   | _ => "bad-op"
 
